@@ -657,15 +657,16 @@ impl TypedStmt {
                 vec![]
             }
             StmtEnum::ForEachLoop(pattern, array, body) => {
-                let (elem_in_bits, _) = array
+                let (elem_in_bits, num_elems) = array
                     .ty
                     .unwrap_array_size(prg, circuit.const_sizes())
                     .expect("Found a non-array value in an array access expr");
                 env.push();
                 let array = array.compile(prg, env, circuit);
 
-                let mut i = 0;
-                while i < array.len() {
+                // (one iteration per element, also for elements that have no bits at all)
+                for elem in 0..num_elems {
+                    let i = elem * elem_in_bits;
                     let binding = &array[i..i + elem_in_bits];
                     // each iteration has its own scope, so that bindings introduced by the body
                     // do not leak into the next iteration:
@@ -676,7 +677,6 @@ impl TypedStmt {
                         stmt.compile(prg, env, circuit);
                     }
                     env.pop();
-                    i += elem_in_bits;
                 }
                 env.pop();
                 vec![]
